@@ -121,4 +121,37 @@ def integrate [Add α] [Sub α] [LT α] [LE α] [DecidableLT α] [DecidableLE α
     (c : Cfg α) (outerFuel innerFuel : Nat) : Option (St α) :=
   outer c innerFuel outerFuel (initSt c)
 
+/-! ### data views used by the regenerated `integrate_ode` (Generated/PyMixed.lean) -/
+
+/-- `all_spike_times[i]` -/
+def spikeTimeAt [Inhabited α] (c : Cfg α) (i : Nat) : α :=
+  match c.spikes[i]? with
+  | some p => p.1
+  | none => default
+
+/-- `all_spike_times_sym[i]` (symbols that are not numerically integrated variables are dropped by the harness) -/
+def spikeSymsAt (c : Cfg α) (i : Nat) : List Nat :=
+  match c.spikes[i]? with
+  | some p => p.2
+  | none => []
+
+/-- `float(bound.evalf(...))` of a bound that is present -/
+def optVal [Inhabited α] : Option α → α
+  | some v => v
+  | none => default
+
+/-- `y[k]` -/
+def getY [Inhabited α] (y : List α) (k : Nat) : α := y.getD k default
+
+/-- what `integrate_ode` reads of a shape when enforcing bounds: the position of its symbol in `x` and its two bounds -/
+structure ShapeB (α : Type) where
+  idx : Nat
+  ub : Option α
+  lb : Option α
+
+/-- `self._shapes` as far as bound enforcement is concerned: one record per position of `y` (positions that carry no
+bound are no-ops of the loop) -/
+def shapeBounds (c : Cfg α) : List (ShapeB α) :=
+  (List.range c.y0.length).map (fun i => { idx := i, ub := c.upper.getD i none, lb := c.lower.getD i none })
+
 end OdeVerif.MI
